@@ -5,6 +5,7 @@ import Model.Comm
 import Model.Path
 import Model.Spawn
 import Model.Builder
+import Model.Pipeline
 /-!
   `modeldriver`: one request per input line, one answer per output line.
   The harness runs the implementation on the same requests and diffs the answers.
@@ -506,6 +507,72 @@ def handle (args : List String) : String :=
   | _ => "bad-request"
 end BuilderIO
 
+namespace PipeIO
+open Pipe
+
+def inOf : String → Option InKind
+  | "I" => some .inherit | "P" => some .pipe | "F" => some .file | "D" => some .data | _ => none
+def outOf : String → Option OutKind
+  | "I" => some .inherit | "P" => some .pipe | "F" => some .file | _ => none
+def termOf : String → Option Term
+  | "popen" => some .popen | "join" => some .join | "stream_stdout" => some .streamStdout
+  | "stream_stderr" => some .streamStderr | "stream_stdin" => some .streamStdin
+  | "capture" => some .capture | "communicate" => some .communicate | _ => none
+
+/-- canonical pipe names: order of creation -/
+def renameMap (acts : List Act) : List Nat :=
+  acts.filterMap fun a => match a with | .mk p _ _ => some p | _ => none
+
+def nameOf (ren : List Nat) (p : Nat) : String :=
+  match ren.findIdx? (· == p) with
+  | some i => "p" ++ toString i
+  | none => "q" ++ toString p
+
+def showEnd (ren : List Nat) (e : End) : String :=
+  nameOf ren e.pipe ++ (match e.side with | .r => "r" | .w => "w")
+
+def showAtt (ren : List Nat) : Att → String
+  | .inherit => "I" | .file => "F" | .pipe p => nameOf ren p
+
+def allEnds (ren : List Nat) : List End :=
+  ren.flatMap fun p => [⟨p, .r⟩, ⟨p, .w⟩]
+
+def showHeld (ren : List Nat) (h : Held) : String :=
+  "[" ++ ",".intercalate (((allEnds ren).filter fun e => (h e).isSome).map (showEnd ren)) ++ "]"
+
+def summarize (ren : List Nat) : Held → List Act → List String
+  | h, [] => ["E" ++ showHeld ren h]
+  | h, a :: rest =>
+    let h' := stepHeld h a
+    let tok : List String := match a with
+      | .spawn i a0 a1 a2 =>
+        let dirty := (allEnds ren).filter fun e => h e == some false && !(attEnds a0 a1 a2).contains e
+        ["S" ++ toString i ++ "(" ++ showAtt ren a0 ++ "," ++ showAtt ren a1 ++ "," ++ showAtt ren a2 ++ ")!" ++
+          "[" ++ ",".intercalate (dirty.map (showEnd ren)) ++ "]"]
+      | .fail i => ["F" ++ toString i]
+      | .wait j => ["w" ++ toString j ++ showHeld ren h]
+      | .waitRet j => ["W" ++ toString j ++ showHeld ren h]
+      | .io => ["IO"]
+      | .ret ok => [if ok then "R1" else "R0"]
+      | .user => ["U"]
+      | _ => []
+    tok ++ summarize ren h' rest
+
+/-- `pipe n=.. det=<bits> in=.. out=.. err=.. errto=.. fail=<k|-> term=..` -/
+def handle (args : List String) : String :=
+  let kv := SpawnIO.kvOf args
+  let g := SpawnIO.get kv
+  match (g "n").toNat?, inOf (g "in"), outOf (g "out"), outOf (g "err"), termOf (g "term") with
+  | some n, some i, some o, some e, some t =>
+    let bits := (g "det").toList
+    let c : Cfg := { n := n, det := fun j => bits.getD j '0' == '1', sin := i, sout := o, serr := e,
+                     errTo := g "errto" == "1", failAt := (g "fail").toNat? }
+    let acts := run c t
+    let ren := renameMap acts
+    "ok " ++ " ".intercalate (summarize ren Held.empty acts)
+  | _, _, _, _, _ => "bad-request"
+end PipeIO
+
 def handle (line : String) : String :=
   match tokens line with
   | "win" :: args => handleWin args
@@ -517,6 +584,7 @@ def handle (line : String) : String :=
   | "comm" :: args => CommIO.handle args
   | "spawn" :: args => SpawnIO.handle args
   | "builder" :: args => BuilderIO.handle args
+  | "pipe" :: args => PipeIO.handle args
   | _ => "bad-request"
 
 partial def loop (h : IO.FS.Stream) (out : IO.FS.Stream) : IO Unit := do
